@@ -267,4 +267,10 @@ theorem from_bytes_wide_spec (hin : EnvIn [x0, x1, x2, x3, x4, x5, x6, x7, x8, x
 
 end
 
+/-! ## non-vacuity of the hypotheses -/
+
+example : EnvIn (List.replicate 64 255) Scalar29.pre_from_bytes_wide := by decide +kernel
+example : EnvIn (List.replicate 18 (2 ^ 29 - 1)) Scalar29.pre_mul_internal ∧
+    val29 (List.replicate 9 (2 ^ 29 - 1)) * val29 (List.replicate 9 (2 ^ 29 - 1)) < 2 ^ 261 * l := by decide +kernel
+
 end Dalek.Props.C02.Scalar29
